@@ -36,6 +36,12 @@ type FaultPlan struct {
 	SnapshotDir string
 	// OneShot: disarm FailAt after it fired.
 	OneShot bool
+	// YieldAt: when the k-th counted statement is about to be compiled, run Yield on the
+	// calling goroutine (a scheduling point inside a multi-statement read: another
+	// component makes progress between two statements of the reader).
+	YieldAt int
+	Yield   func()
+	Yields  int
 
 	// observed
 	Count      int  // counted statements seen in the window
@@ -172,7 +178,15 @@ func (f *faultRegistry) authorize(file string, op int, a1, a2, a3 string) int {
 	if snap {
 		p.Snapshots++
 	}
+	var yield func()
+	if p.YieldAt != 0 && p.Count == p.YieldAt && p.Yield != nil {
+		yield = p.Yield
+		p.Yields++
+	}
 	f.mu.Unlock()
+	if yield != nil {
+		yield()
+	}
 	if snap {
 		_ = CopyDBFiles(file, filepath.Join(snapDir, filepath.Base(file)))
 	}
